@@ -442,6 +442,12 @@ def callFunction (O : Oracles) (f : Func) (args : List Value) : Outcome Value :=
       .ok ((createTimestamp y mo d h mi s us).getD .null)
     else .ok .null
   | .makeTimestamp, [_, _, _, _, _, _, _, _] => undef
+  -- the documented seven-argument form (accepted since the repair of D64; the eighth argument was never read)
+  | .makeTimestamp, [.int y, .int mo, .int d, .int h, .int mi, .int s, .int us] =>
+    if fitsI32 y && fitsU32 mo && fitsU32 d && fitsU32 h && fitsU32 mi && fitsU32 s && fitsU32 us then
+      .ok ((createTimestamp y mo d h mi s us).getD .null)
+    else .ok .null
+  | .makeTimestamp, [_, _, _, _, _, _, _] => undef
   | .epoch, [a] =>
     match a with
     | .timestamp d s f =>
